@@ -255,9 +255,13 @@ impl SubCheck for RSub {
         }
         stop.store(true, Ordering::Release);
         let mut reqs: Vec<Req> = Vec::new();
+        let mut thread_reads: Vec<Vec<i64>> = Vec::new();
         for h in handles {
             match h.join() {
-                Ok(v) => reqs.extend(v),
+                Ok(v) => {
+                    thread_reads.push(v.iter().flat_map(|r| [r.t_before, r.t_after]).collect());
+                    reqs.extend(v)
+                }
                 Err(_) => err = err.or(Some("a scheduling thread panicked".into())),
             }
         }
@@ -353,6 +357,21 @@ impl SubCheck for RSub {
                     last_handler_time = *time;
                     fired.entry(*id).or_default().push(*time);
                 }
+            }
+        }
+        // each scheduling thread is also a reader of the time: what it read never decreases (C15)
+        for (ti, tr) in thread_reads.iter().enumerate() {
+            let mut prev = i64::MIN;
+            for t in tr {
+                if *t < prev {
+                    return Verdict::Fail {
+                        signature: "C15/time-went-backwards".into(),
+                        clause: "reader-time-went-backwards".into(),
+                        detail: format!("scheduling thread {} read the time {} through its Scheduler handle after having read {}", ti, t, prev),
+                        props: &["C15", "C08", "C01"],
+                    };
+                }
+                prev = *t;
             }
         }
         let (mut acc_abs, mut rej_abs, mut acc_rel) = (0u32, 0u32, 0u32);
